@@ -34,6 +34,9 @@ class ResourceManager:
         # Record initial resource amounts.
         for resource_name in self._resources.keys():
             self._record_resource_amount_update(resource_name)
+        # Requests registered before the simulation started.
+        if len(self._waiting_requests) > 0:
+            self._schedule_check_pending_requesters()
 
     def get_resource_usage(self, resource_name):
         '''Get how much of a resource is currently reserved/in-use.
@@ -176,6 +179,8 @@ class ResourceManager:
         self._schedule_check_pending_requesters()
 
     def _schedule_check_pending_requesters(self):
+        if self._env == None:
+            return  # Checked when the simulation is initialized.
         self._env.schedule_event(self._env.now, -1, self._check_pending_requests,
                                  EventType.OTHER_HIGH_PRIORITY, 'From ResourceManager')
 
@@ -210,6 +215,8 @@ class ResourceManager:
         return True
 
     def _record_resource_amount_update(self, resource_name):
+        if self._env == None:
+            return  # Initial amounts are recorded by initialize().
         in_use, max_available = self._resources[resource_name]
         self._env.add_datapoint('resource_update', resource_name, (self._env.now, in_use, max_available))
 
